@@ -158,3 +158,90 @@ class EBNF:
         elif h != 0:
             return None         # helper unused: only count the grammar once
         return Grammar(rules, self.terms, self.ignore)
+
+
+# ---------------------------------------------------------------------------------------------------
+# SHAPE: EBNF bodies decorated with the tree-shaping features (C03, C06 meta, C11, C16, C19)
+
+SX, SY, SZ, SW = ('tok', 'X'), ('tok', '_Y'), ('lit', 'z'), ('re', 'w')
+SHAPE_TERMS = (Term('X', (('str', 'x', ''),)), Term('_Y', (('str', 'y', ''),)))
+
+
+def shape_menu(a):
+    """Items of the start body; `a` is the helper reference item (('ref','a') / ('ref','_a') / template use)."""
+    m = []
+    for t in (SX, a):
+        m += [t, ('opt', t), ('star', t), ('plus', t), ('rep', t, 2, 2), ('rep', t, 1, 2), ('rep', t, 0, 2)]
+    for t in (SY, SZ, SW):
+        m += [t, ('opt', t)]
+    m += [
+        ('maybe', ((SX,),)), ('maybe', ((a,),)), ('maybe', ((SX, SY),)), ('maybe', ((SX,), (SY, SY))),
+        ('maybe', ((SX, ('maybe', ((SZ,),))),)), ('maybe', ((SY,), (SZ, SX))), ('maybe', ((SX, ('maybe', ((a,),))),)),
+        ('star', ('group', ((SX,), (SY, a)))), ('opt', ('group', ((SX, SY),))), ('group', ((SX,), (SZ,))),
+        ('maybe', ((SW, SX),)), ('maybe', ((('opt', SX), SZ),)), ('opt', ('maybe', ((SX,),))),
+        ('plus', ('group', ((SZ, a),))), ('maybe', ((SZ,),)), ('maybe', ((('rep', SX, 1, 2),),)),
+    ]
+    return m
+
+
+def shape_helpers(self_ref):
+    """Helper bodies as (alternatives with alias): the alias variants are dropped for '_' spellings (not allowed)."""
+    return [
+        (((SX,), None),),
+        (((SX, SZ), None), ((SY,), 'ali')),
+        (((SZ, ('opt', SX)), None),),
+        (((('maybe', ((SX,),)), SZ), None),),
+        (((self_ref, SX), None), ((SX,), None)),
+        (((SY, SX, SZ), 'ali'), ((SX, SX), None)),
+        (((SW,), None), ((SX, SY), None)),
+        (((SZ,), None), ((('maybe', ((SX, SX),)), SY), 'ali')),
+    ]
+
+
+class SHAPE:
+    """index = ((body index) * n_helpers + helper) * n_spellings + spelling"""
+    SPELL = (('a', ''), ('_a', ''), ('a', '?'), ('a', '!'), ('t', 'T'), ('_t', 'T'))    # 'T' = template t{p} used as t{X}
+
+    def __init__(self, n, spellings=None, ignore=(), extra_terms=(), body_filter=None):
+        self.spell = spellings or self.SPELL
+        self.n = n
+        nm = len(shape_menu(('ref', 'a')))
+        self.bodies = []
+        for k in range(1, n + 1):
+            self.bodies.extend(itertools.product(range(nm), repeat=k))
+        self.nh = len(shape_helpers(('ref', 'a')))
+        self.size = len(self.bodies) * self.nh * len(self.spell)
+        self.ignore, self.extra_terms = tuple(ignore), tuple(extra_terms)
+
+    def __len__(self):
+        return self.size
+
+    def grammar(self, idx):
+        idx, sp = divmod(idx, len(self.spell))
+        b, h = divmod(idx, self.nh)
+        name, mod = self.spell[sp]
+        if mod == 'T':
+            aitem = ('tmpl', name, (SX,))
+            self_ref = ('tmpl', name, (('ref', 'p'),))
+        else:
+            aitem = self_ref = ('ref', name)
+        menu = shape_menu(aitem)
+        body = tuple(menu[i] for i in self.bodies[b])
+        uses = any(it == aitem for it in gram.items_of(body))
+        if not uses:
+            if h or sp:
+                return None
+            rules = [Rule('start', '', None, ((body, None),))]
+            return Grammar(rules, SHAPE_TERMS + self.extra_terms, self.ignore)
+        alts = shape_helpers(self_ref)[h]
+        if name.startswith('_'):
+            if any(al for _, al in alts):
+                return None         # aliases are not allowed on inlined rules
+        if mod == 'T':
+            # template: the parameter p stands where the helper bodies have X in first position of each alternative
+            alts = tuple((tuple((('ref', 'p') if (i == 0 and x == SX) else x) for i, x in enumerate(s)), al) for s, al in alts)
+            helper = Rule(name, '', None, alts, ('p',))
+        else:
+            helper = Rule(name, mod, None, alts)
+        rules = [Rule('start', '', None, ((body, None),)), helper]
+        return Grammar(rules, SHAPE_TERMS + self.extra_terms, self.ignore)
